@@ -506,7 +506,7 @@ func (e *Env) atom(a string) (string, types.Type, error) {
 	if ok {
 		return t, ty, nil
 	}
-	if strings.HasPrefix(a, "phi:") || strings.HasSuffix(strings.SplitN(a, ".", 2)[0], "@0") || (strings.Contains(a, ":") && !strings.HasPrefix(a, ":")) {
+	if strings.HasPrefix(a, "phi:") || strings.HasPrefix(a, "after:") || strings.HasSuffix(strings.SplitN(a, ".", 2)[0], "@0") || (strings.Contains(a, ":") && !strings.HasPrefix(a, ":")) {
 		return "", nil, fmt.Errorf("%s is not in scope here", a)
 	}
 	if goIdentRe.MatchString(a) || (strings.HasPrefix(a, "*") && len(a) > 1 && goIdentRe.MatchString(strings.SplitN(a[1:], ".", 2)[0])) {
@@ -564,6 +564,14 @@ func (e *Env) lookupRoot(name string) (SV, bool) {
 				return sv, true
 			}
 			if sv, ok := e.frame.lookupLocal(strings.TrimPrefix(name, "phi:")); ok {
+				return sv, true
+			}
+		}
+		return SV{}, false
+	}
+	if strings.HasPrefix(name, "after:") { // the variable as an earlier, finished loop left it
+		if e.frame != nil {
+			if sv, ok := e.frame.lookupFinishedLoopPhi(strings.TrimPrefix(name, "after:")); ok {
 				return sv, true
 			}
 		}
@@ -991,6 +999,71 @@ func (f *Frame) lookupOnlyLoopPhi(name string) (SV, bool) {
 		return f.vals[found], true
 	}
 	return SV{}, false
+}
+
+// lookupFinishedLoopPhi resolves after:NAME inside the annotation of a loop that does not itself carry NAME: the phi
+// named NAME of the latest earlier loop whose head dominates the current loop head and that can be left towards the
+// current head only from its head block (so the head phi is the value the variable has when the loop is left).
+func (f *Frame) lookupFinishedLoopPhi(name string) (SV, bool) {
+	if f.curHead == nil {
+		return SV{}, false
+	}
+	var best *ssa.Phi
+	for h, li := range f.loops {
+		if h == f.curHead || li.blocks[f.curHead] || !h.Dominates(f.curHead) {
+			continue
+		}
+		okExit := true
+		for b := range li.blocks {
+			if b == h {
+				continue
+			}
+			for _, s := range b.Succs {
+				if !li.blocks[s] && s != h && blockReaches(s, f.curHead) {
+					okExit = false
+				}
+			}
+		}
+		if !okExit {
+			continue
+		}
+		for _, ins := range h.Instrs {
+			phi, ok := ins.(*ssa.Phi)
+			if !ok {
+				break
+			}
+			if phi.Comment == name {
+				if _, has := f.vals[phi]; has && (best == nil || h.Index > best.Block().Index) {
+					best = phi
+				}
+			}
+		}
+	}
+	if best == nil {
+		return SV{}, false
+	}
+	return f.vals[best], true
+}
+
+func blockReaches(from, to *ssa.BasicBlock) bool {
+	seen := map[*ssa.BasicBlock]bool{}
+	var dfs func(b *ssa.BasicBlock) bool
+	dfs = func(b *ssa.BasicBlock) bool {
+		if b == to {
+			return true
+		}
+		if seen[b] {
+			return false
+		}
+		seen[b] = true
+		for _, s := range b.Succs {
+			if dfs(s) {
+				return true
+			}
+		}
+		return false
+	}
+	return dfs(from)
 }
 
 // lookupLoopPhi finds a phi named name in the current loop head or an enclosing loop head.
